@@ -49,7 +49,7 @@ struct Annot : Profile {
     std::vector<std::string> required_probes() const override
     {
         return {"rewrite-longer", "rewrite-shorter", "desc-with-nul", "many-per-object", "select-all", "annlist", "dfan-put", "dfan-get",
-                "restart", "create-first-in-session", "dfan-missing-file", "dfan-burst", "dfan-burst>32", "short-buffer-read"};
+                "restart", "create-first-in-session", "dfan-missing-file", "dfan-burst", "dfan-burst>32", "short-buffer-read", "create-refused-before-first-write"};
     }
 
     Plan generate(Rng &rng, bool thorough, uint64_t) override
@@ -280,6 +280,14 @@ struct Annot : Profile {
                 x.text = mktext((uint64_t)o.arg(4), std::max<int64_t>(1, o.arg(3)), type == 1 || type == 3);
                 if (x.text.find('\0') != std::string::npos)
                     ctx.probe("desc-with-nul");
+                if (modn(o.arg(4), 5) == 0) {
+                    // a second annotation of the same type before the first one is written: both would get one reference
+                    // number, so it is refused -- and a refused create leaves no trace (the counts checked later say so)
+                    int32 dup = type < 2 ? ANcreatef(s.an, TYPES[type]) : ANcreate(s.an, ttag, tref, TYPES[type]);
+                    if (dup != FAIL)
+                        ctx.fail("create-accepted", "create-accepted:same-ref-twice", strf("a second ANcreate%s(type %d) before the first annotation is written returns an id", type < 2 ? "f" : "", type));
+                    ctx.probe("create-refused-before-first-write");
+                }
                 if (ANwriteann(id, x.text.data(), (int32)x.text.size()) == FAIL)
                     ctx.fail("write-refused", "write-refused:new", strf("ANwriteann(%zu bytes) on a new annotation failed", x.text.size()));
                 if (ANid2tagref(id, &x.atag, &x.aref) == FAIL || x.atag != TTAG[type])
